@@ -846,6 +846,11 @@ func (x *g) method(s *spec.Service, name string, idx int, usedRoutes map[string]
 			&spec.Field{Name: x.fieldName(rt), Number: rn + 1, Kind: "message", TypeName: x.fq("Other"), Oneof: "result"})
 		rn += 2
 	}
+	if x.cfg.Mock && x.has(FMapWKT) && idx == 0 {
+		// a map whose values are messages of another Go package (well-known type)
+		resp.Fields = append(resp.Fields, &spec.Field{Name: x.fieldName(rt), Number: rn, Kind: "message", TypeName: ".google.protobuf.Timestamp", Card: "map", MapKey: "string"})
+		rn++
+	}
 	// always give the response one plain string field first-class (used by the KV oracle)
 	if len(resp.Fields) == 0 || x.r.chance(1, 2) {
 		resp.Fields = append(resp.Fields, &spec.Field{Name: x.fieldName(rt), Number: rn, Kind: "string"})
